@@ -746,9 +746,9 @@ Proof.
   induction 1 as [|r2 t H2 Ht IH]; intros l added Hl; cbn [add_runs].
   - split; [assumption|]. intro p. now rewrite orb_false_r.
   - pose proof (add_scan_spec r2 H2 l Hl) as S. destruct (add_scan l r2) as [[l' n]|].
-    + destruct S as (S1 & S2). destruct (IH l' (wS 64 (added + n)) S1) as (I1 & I2).
+    + destruct S as (S1 & S2). destruct (IH l' (added + num_voxels (uncovered l r2)) S1) as (I1 & I2).
       split; [assumption|]. intro p. rewrite I2, S2, inrs_cons. now rewrite orb_assoc.
-    + destruct (IH (l ++ [r2]) (wS 64 (added + rlen r2))) as (I1 & I2).
+    + destruct (IH (l ++ [r2]) (added + num_voxels (uncovered l r2))) as (I1 & I2).
       { apply Forall_app. split; [assumption|constructor; [assumption|constructor]]. }
       split; [assumption|]. intro p. rewrite I2, inrs_app, !inrs_cons, inrs_nil, orb_false_r. now rewrite orb_assoc.
 Qed.
@@ -756,10 +756,10 @@ Qed.
 (* the documented meaning of the count (voxels not already present) fails when a run bridges two *)
 Lemma add_count_refuted :
   exists l l2, Forall run_ok l /\ Forall run_ok l2 /\ pairwise_disjoint l /\
-    snd (add l l2) = 3 /\
+    snd (add_orig l l2) = 3 /\
     let count l := Z.of_nat (length (filter (fun x => inrs (Z.of_nat x, 0, 0) l) (seq 0 20))) in
-    (forall p, inrs p (fst (add l l2)) = true -> py p = 0 /\ pz p = 0 /\ 0 <= px p < 20) /\
-    count (fst (add l l2)) - count l = 1.
+    (forall p, inrs p (fst (add_orig l l2)) = true -> py p = 0 /\ pz p = 0 /\ 0 <= px p < 20) /\
+    count (fst (add_orig l l2)) - count l = 1.
 Proof.
   exists [R 0 0 0 4; R 5 0 0 4], [R 2 0 0 5].
   split; [repeat constructor; cbn; lia|]. split; [repeat constructor; cbn; lia|].
@@ -863,3 +863,161 @@ Proof. intros Hr Hs C. split; [now apply excise_contains|now apply excise_frags_
 Lemma add_union_l l l2 : Forall run_ok l -> Forall run_ok l2 ->
   Forall run_ok (fst (add l l2)) /\ forall p, inrs p (fst (add l l2)) = inrs p l || inrs p l2.
 Proof. intros H H2. exact (add_runs_spec l2 H2 l 0 H). Qed.
+
+(* ---- the repaired count of Add ---- *)
+Lemma add_orig_same_runs l2 : forall l a b, fst (add_runs_orig l l2 a) = fst (add_runs l l2 b).
+Proof.
+  induction l2 as [|r2 t IH]; intros l a b; cbn [add_runs_orig add_runs]; [reflexivity|].
+  destruct (add_scan l r2) as [[l' n]|]; apply IH.
+Qed.
+
+(* Excise for any two runs: nil iff they share no voxel, else the (at most two) fragments of r
+   outside s, in order *)
+Lemma excise_general r s : run_ok r -> run_ok s ->
+  match excise r s with
+  | None => forall p, inr p r && inr p s = false
+  | Some fr => (forall p, inrs p fr = inr p r && negb (inr p s)) /\ Forall run_ok fr
+               /\ StronglySorted run_lt fr /\ Forall (contains r) fr
+  end.
+Proof.
+  unfold run_ok, excise. intros Hr Hs. destruct r as [x y z n], s as [x' y' z' n']. cbn [rx ry rz rlen] in *. unw.
+  destruct (negb (z =? z') || negb (y =? y')) eqn:Row.
+  { intros [[? ?] ?]. unfold inr, px, py, pz; cbn [fst snd rx ry rz rlen]. lia. }
+  destruct ((x' + n' - 1 <? x) || (x + n - 1 <? x')) eqn:Ov.
+  { intros [[? ?] ?]. unfold inr, px, py, pz; cbn [fst snd rx ry rz rlen]. lia. }
+  destruct (Z.ltb_spec x x'); destruct (Z.ltb_spec (x' + n' - 1) (x + n - 1)); unw; cbn [app].
+  all: split; [intros [[? ?] ?]; rewrite ?inrs_cons, ?inrs_nil; unfold inr, px, py, pz; cbn [fst snd rx ry rz rlen]; lia|].
+  all: split; [repeat constructor; cbn [rx ry rz rlen]; lia|].
+  all: split; repeat constructor; unfold run_lt, row_lt, same_row, contains; cbn [rx ry rz rlen]; lia.
+Qed.
+
+Definition parts_of (r2 : rle) (fr : list rle) : Prop :=
+  StronglySorted run_lt fr /\ Forall run_ok fr /\ Forall (contains r2) fr.
+
+Lemma cut_frags_spec r2 r : run_ok r -> forall fr, parts_of r2 fr ->
+  parts_of r2 (cut_frags fr r) /\ forall p, inrs p (cut_frags fr r) = inrs p fr && negb (inr p r).
+Proof.
+  intros Hr. induction fr as [|f t IH]; intros (S & Ok & C); unfold cut_frags; cbn [flat_map].
+  - split; [repeat split; constructor|reflexivity].
+  - inversion S as [|? ? St Ft]; subst. inversion Ok as [|? ? Okf Okt]; subst. inversion C as [|? ? Cf Ct]; subst.
+    destruct (IH (conj St (conj Okt Ct))) as ((S' & Ok' & C') & V'). fold (cut_frags t r) in *.
+    pose proof (excise_general f r Okf Hr) as E.
+    assert (Tail : forall g, contains f g -> run_ok g -> Forall (run_lt g) (cut_frags t r)).
+    { intros g Cg Okg. rewrite Forall_forall in *. intros e He.
+      assert (exists t0, In t0 t /\ contains t0 e) as (t0 & Ht0 & Ce).
+      { unfold cut_frags in He. apply in_flat_map in He as (t0 & Ht0 & He). exists t0. split; [assumption|].
+        pose proof (excise_general t0 r (Okt t0 Ht0) Hr) as E0.
+        destruct (excise t0 r) as [cut|].
+        - destruct E0 as (_ & _ & _ & C0). rewrite Forall_forall in C0. auto.
+        - destruct He as [<-|[]]. specialize (Okt t0 Ht0). unf. lia. }
+      specialize (Ft t0 Ht0). specialize (Ok' e He). specialize (Okt t0 Ht0). unf. rdestr. lia. }
+    destruct (excise f r) as [cut|].
+    + destruct E as (V & Okc & Sc & Cc). split.
+      * repeat split.
+        -- apply SS_app. repeat split; [assumption|assumption|].
+           intros a b Ha Hb. rewrite Forall_forall in Cc, Okc. specialize (Tail a (Cc a Ha) (Okc a Ha)).
+           rewrite Forall_forall in Tail. auto.
+        -- apply Forall_app; split; assumption.
+        -- apply Forall_app; split; [|assumption]. rewrite Forall_forall in *. intros a Ha. specialize (Cc a Ha). unf. rdestr. lia.
+      * intro p. rewrite inrs_app, V, V', inrs_cons. destruct (inr p f), (inr p r), (inrs p t); reflexivity.
+    + split.
+      * repeat split.
+        -- cbn [app]. constructor; [assumption|]. apply Tail; [unf; lia|assumption].
+        -- cbn [app]. constructor; assumption.
+        -- cbn [app]. constructor; assumption.
+      * intro p. cbn [app]. rewrite !inrs_cons, V'. specialize (E p).
+        destruct (inr p f), (inr p r), (inrs p t); try reflexivity; discriminate.
+Qed.
+
+(* what is left of the new run after cutting every run of the receiver out: ordered, pairwise
+   separate pieces of r2 holding exactly the voxels of r2 that no run of l holds *)
+Lemma uncovered_spec r2 : run_ok r2 -> forall l, Forall run_ok l ->
+  parts_of r2 (uncovered l r2) /\ forall p, inrs p (uncovered l r2) = inr p r2 && negb (inrs p l).
+Proof.
+  intros H2 l Hl. unfold uncovered.
+  assert (G : forall fr, parts_of r2 fr ->
+            parts_of r2 (fold_left cut_frags l fr) /\ forall p, inrs p (fold_left cut_frags l fr) = inrs p fr && negb (inrs p l)).
+  { induction Hl as [|r t Hr Ht IH]; intros fr P; cbn [fold_left].
+    - split; [assumption|]. intro p. now rewrite inrs_nil, andb_true_r.
+    - destruct (cut_frags_spec r2 r Hr fr P) as (P1 & V1). destruct (IH _ P1) as (P2 & V2).
+      split; [assumption|]. intro p. rewrite V2, V1, inrs_cons. destruct (inrs p fr), (inr p r), (inrs p t); reflexivity. }
+  destruct (G [r2]) as (P & V).
+  { split; [constructor; constructor|]. split; [constructor; [assumption|constructor]|].
+    constructor; [unfold run_ok in H2; unf; lia|constructor]. }
+  split; [assumption|]. intro p. rewrite V, inrs_cons, inrs_nil, orb_false_r. reflexivity.
+Qed.
+
+(* the voxels each run of l2 adds, run by run: [news] lists, for every run of l2 in turn, ordered
+   separate pieces holding exactly its voxels that neither l nor the earlier runs of l2 hold *)
+Fixpoint new_parts (l l2 : list rle) (news : list (list rle)) : Prop :=
+  match l2, news with
+  | [], [] => True
+  | r2 :: t, fr :: ft => parts_of r2 fr /\ (forall p, inrs p fr = inr p r2 && negb (inrs p l)) /\ new_parts (l ++ [r2]) t ft
+  | _, _ => False
+  end.
+
+Lemma new_parts_ext l2 : forall l l' news, (forall p, inrs p l = inrs p l') -> new_parts l l2 news -> new_parts l' l2 news.
+Proof.
+  induction l2 as [|r2 t IH]; intros l l' [|fr ft] E H; cbn [new_parts] in *; try assumption.
+  destruct H as (P & V & N). split; [assumption|]. split; [intro p; now rewrite V, E|].
+  eapply IH; [|exact N]. intro p. now rewrite !inrs_app, E.
+Qed.
+
+Lemma add_count_ok l2 : Forall run_ok l2 -> forall l a, Forall run_ok l ->
+  exists news, new_parts l l2 news
+    /\ snd (add_runs l l2 a) = a + fold_right (fun fr s => num_voxels fr + s) 0 news.
+Proof.
+  induction 1 as [|r2 t H2 Ht IH]; intros l a Hl; cbn [add_runs].
+  - exists []. split; [exact I|]. cbn. lia.
+  - destruct (uncovered_spec r2 H2 l Hl) as (P & V).
+    pose proof (add_scan_spec r2 H2 l Hl) as S. destruct (add_scan l r2) as [[l' n]|].
+    + destruct S as (S1 & S2). destruct (IH l' (a + num_voxels (uncovered l r2)) S1) as (news & N & E).
+      exists (uncovered l r2 :: news). split.
+      * cbn [new_parts]. split; [assumption|]. split; [assumption|].
+        eapply new_parts_ext; [|exact N]. intro p. rewrite S2, inrs_app, inrs_cons, inrs_nil, orb_false_r. reflexivity.
+      * rewrite E. cbn [fold_right]. lia.
+    + destruct (IH (l ++ [r2]) (a + num_voxels (uncovered l r2))) as (news & N & E).
+      { apply Forall_app. split; [assumption|constructor; [assumption|constructor]]. }
+      exists (uncovered l r2 :: news). split; [cbn [new_parts]; auto|]. rewrite E. cbn [fold_right]. lia.
+Qed.
+
+Lemma add_count_l l l2 : Forall run_ok l -> Forall run_ok l2 ->
+  exists news, new_parts l l2 news /\ snd (add l l2) = fold_right (fun fr s => num_voxels fr + s) 0 news.
+Proof. intros Hl H2. destruct (add_count_ok l2 H2 l 0 Hl) as (news & N & E). exists news. split; [exact N|]. unfold add. rewrite E. lia. Qed.
+
+(* ---- Split when the splits share no voxel with the runs: the error return ---- *)
+Lemma split_one_none s : forall after before, (forall o, In o after -> excise o s = None) -> split_one s before after = None.
+Proof.
+  induction after as [|o tl IH]; intros before H; cbn [split_one]; [reflexivity|].
+  rewrite (H o (or_introl eq_refl)). apply IH. intros; apply H; now right.
+Qed.
+
+Lemma excise_none_of_disjoint r s : run_ok r -> run_ok s -> (forall p, inr p r && inr p s = false) -> excise r s = None.
+Proof.
+  unfold run_ok, excise. intros Hr Hs D. destruct r as [x y z n], s as [x' y' z' n']. cbn [rx ry rz rlen] in *. unw.
+  specialize (D (Z.max x x', y, z)). unfold inr, px, py, pz in D; cbn [fst snd rx ry rz rlen] in D.
+  destruct (negb (z =? z') || negb (y =? y')) eqn:A; [reflexivity|].
+  destruct ((x' + n' - 1 <? x) || (x + n - 1 <? x')) eqn:B; [reflexivity|]. exfalso. lia.
+Qed.
+
+Lemma split_disjoint_err rles splits : Forall run_ok rles -> Forall run_ok splits -> splits <> [] ->
+  pairwise_disjoint rles -> pairwise_disjoint splits ->
+  (forall p, inrs p splits = true -> inrs p rles = false) -> split rles splits = Err.
+Proof.
+  intros Hr Hs Ne Dr Ds Dis. unfold split. destruct splits as [|s0 t]; [congruence|].
+  set (splits := s0 :: t) in *.
+  destruct (normalize_canon rles Hr Dr) as (_ & Okr). destruct (normalize_canon splits Hs Ds) as (_ & Oks).
+  assert (Nn : normalize splits <> []).
+  { intro E. assert (X : inrs (rx s0, ry s0, rz s0) (normalize splits) = true).
+    { rewrite normalize_voxels_l by assumption. unfold splits. rewrite inrs_cons. apply orb_true_iff. left.
+      inversion Hs; subst. unfold inr, run_ok, px, py, pz in *; cbn [fst snd]. lia. }
+    rewrite E in X. discriminate. }
+  destruct (normalize splits) as [|s ss] eqn:En; [congruence|]. cbn [split_all].
+  rewrite split_one_none; [reflexivity|].
+  intros o Ho. rewrite Forall_forall in Okr, Oks. apply excise_none_of_disjoint; [auto|apply Oks; now left|].
+  intro p. destruct (inr p o) eqn:Io; [|reflexivity]. destruct (inr p s) eqn:Is; [|reflexivity]. exfalso.
+  assert (A : inrs p (normalize rles) = true) by (apply existsb_exists; exists o; auto).
+  assert (B : inrs p (s :: ss) = true) by (rewrite inrs_cons, Is; reflexivity).
+  rewrite normalize_voxels_l in A by assumption. rewrite <- En, normalize_voxels_l in B by assumption.
+  rewrite (Dis p B) in A. discriminate.
+Qed.
